@@ -103,6 +103,11 @@ func r16dep(c *core.Ctx) {
 	}
 	c.Check(okRan && m >= 10000, R, "stgutg.CreateUE:ran-ue-ngap-id", call.Pos(), fmt.Sprintf("(f(imsi)+index) %% %d", m), "RAN-UE-NGAP-ID is %s: it must be (f(IMSI) + index) mod M with a constant M >= 10000 so that up to 10000 UEs get distinct ids", clip(ran))
 	// main passes the loop index (0-based, step 1)
+
+	if who := mainDelegates(c); who != "" {
+		c.SoftUndecided("%s: main hands the modes over to %s; the main-level rules read the body of main only", R, who)
+		return
+	}
 	mainFn := mustFunc(c, pMain, "main")
 	mp := core.NewPather(mainFn)
 	for i, ci := range core.CallsTo(mainFn, pStg+".CreateUE") {
